@@ -1383,6 +1383,48 @@ class Interp:
 
     def st_For(self, s, fr):
         it = self.eval(s.iter, fr)
+        if isinstance(it, Obj) and it.cls is not None and \
+                it.cls.lookup('__iter__')[0] is not None:
+            # the iterator protocol of a repo class, step by step: what
+            # __next__ does may depend on what the loop body did
+            it = self.call(self.get_attr(it, '__iter__'), [])
+        if isinstance(it, Obj) and it.cls is not None and isinstance(
+                it.cls.lookup('__next__')[0], FuncRef):
+            n = 0
+            while True:
+                try:
+                    v = self.call(self.get_attr(it, '__next__'), [])
+                except AbsRaise as r:
+                    cls = self.exc_class_of(r.exc)
+                    if cls is not None and exc_is_subclass(
+                            cls, ExtRef('StopIteration')):
+                        self.exec_block(s.orelse, fr)
+                        return
+                    raise
+                n += 1
+                if n > max(4096, self.world.unroll_bound):
+                    raise Inexact('iterator of %s did not stop' %
+                                  it.cls.name)
+                self.assign(s.target, v, fr)
+                try:
+                    self.exec_block(s.body, fr)
+                except _Break:
+                    return
+                except _Continue:
+                    continue
+        if isinstance(it, IterV):
+            # a one-shot iterator is used up element by element
+            while it.items:
+                x = it.items.pop(0)
+                self.assign(s.target, x, fr)
+                try:
+                    self.exec_block(s.body, fr)
+                except _Break:
+                    return
+                except _Continue:
+                    continue
+            self.exec_block(s.orelse, fr)
+            return
         if isinstance(it, Iter2V):
             from . import models
             n = 0
@@ -1602,7 +1644,7 @@ class Interp:
                                  'iter() returned non-iterator'))
             out = []
             while True:
-                if len(out) > 64:
+                if len(out) > max(4096, self.world.unroll_bound):
                     raise Inexact('iterator of %s did not stop' %
                                   it.cls.name)
                 try:
@@ -2169,6 +2211,10 @@ class Interp:
             st = self.eval(e.slice.step, fr) if e.slice.step else K(None)
             return models.slice_(self, base, lo, hi, st)
         idx = self.eval(e.slice, fr)
+        if isinstance(idx, K) and isinstance(idx.v, slice):
+            # a slice object made elsewhere (slice(a, b) kept in a field)
+            return models.slice_(self, base, K(idx.v.start), K(idx.v.stop),
+                                 K(idx.v.step))
         return models.subscript(self, base, idx)
 
     def ex_Lambda(self, e, fr):
